@@ -388,13 +388,22 @@ def check(prop, tier):
         runs_ok = max(1, done)
         coverage["files_built_from_random_histories"] = done
         coverage["evaluations"] = int(cnt.get("version.opens", 0))
-        coverage["distinct_nontrivial"] = int(cnt.get("version.opens", 0) // runs_ok)
+        core = int(cnt.get("version.core_triples", 0) // runs_ok)
+        cross_covered = 0
+        for k in range(8):
+            nf = cnt.get("version.cross_class_files.%d" % k, 0)
+            if nf:
+                cross_covered += int(cnt.get("version.cross_class_triples.%d" % k, 0) // nf)
+        # distinct (triple, mode, Force) combinations over the whole batch: the core cube (same on every file) plus the residue classes of the cross that some file took
+        coverage["distinct_nontrivial"] = 4 * (core + cross_covered)
+        coverage["core_triples"] = core
+        coverage["cross_triples_covered_by_this_batch"] = cross_covered
         coverage["version_triples_per_file"] = int(cnt.get("version.triples", 0) // runs_ok)
         coverage["order_law_pairs"] = int(cnt.get("version.order_pairs", 0))
-        coverage["exhaustive"] = True
+        coverage["exhaustive"] = all(cnt.get("version.cross_class_files.%d" % k, 0) > 0 for k in range(8))   # core cube on every file, every class of the cross on some file
         coverage["cross_triples_total"] = int(cnt.get("version.cross_triples_total", 0) // runs_ok)
         coverage["cross_triples_per_file"] = int(cnt.get("version.cross_triples", 0) // runs_ok)
-        coverage["rule"] = RULES["C10"] + ("; evaluations = open attempts over all files, distinct_nontrivial = (triple, mode, Force) combinations per file. Every file enumerates the "
+        coverage["rule"] = RULES["C10"] + ("; evaluations = open attempts over all files, distinct_nontrivial = distinct (triple, mode, Force) combinations over the batch. Every file enumerates the "
             "core cube {lib-2..lib+2, 9, INT_MAX}^3 completely (exhaustive=true refers to this cube) and one eighth (residue class of its seed) of the cross: one component from "
             "radix-boundary values (10^k, 2^8, 2^16 and their neighbours, library component +- radix, negatives, INT_MIN), the other two from the core axes; a batch of >= 8 files "
             "covers the whole cross")
